@@ -60,6 +60,17 @@ PROPS = {
         "unreached": [],
         "assumptions": [],
     },
+    "C15": {
+        "level": "proof",
+        "units": [
+            {"kind": "verus", "unit": "seq"},
+        ],
+        "unreached": [
+            "XSequence::{slice, chain, value_to_idx} (macros over dyn Any downcasts, Cow, ManagedXError: outside Verus' dialect; BigInt promotion closure makes them intractable for CBMC)",
+            "every native builtin body (pop/insert/set/swap/...), Map/Zip representations (call the evaluator), include.rs",
+        ],
+        "assumptions": ["LazyBigint operations by the contracts unit V-int proves (canonical representation of the mathematical result)"],
+    },
     "C14": {
         "level": "proof",
         "units": [
@@ -119,6 +130,12 @@ CLAIMS = {
         "technique": "contract-based deductive verification: Kani harness over all 2^64 bit patterns on the real checked float constructor; constructor-site scan",
         "text": "XValue::float is proved for every f64 bit pattern to build a Float only from a finite operand (payload unchanged) and an error value otherwise.",
         "note": "Decides the checked constructor; the sites that build XValue::Float directly are enumerated by the scan unit when present.",
+    },
+    "C15": {
+        "engine": "vx+verus",
+        "technique": "contract-based deductive verification: Verus contracts on the match arms of XSequence::{len, get} for the Range representation, extracted from src/builtin/sequence.rs on every run",
+        "text": "Narrow: for the lazy Range representation, len is proved overflow-free and equal to the number of elements the range denotes for every (start, end, step) the constructor's guard admits, and get(i) is proved to be start + i*step as an exact integer; the count characterisation is a proved lemma.",
+        "note": "Index arithmetic of one representation only; slicing/chaining composition, index normalisation and every native are listed as unreached in the evidence. LazyBigint by V-int's contracts.",
     },
     "C14": {
         "engine": "vx+verus",
